@@ -1268,3 +1268,6 @@ v("c27-polars-sort-guard-local-twin", "C27", PM,
 v("c25-key-zip-names-hashes", "C25", "eval_cache.py",
   "        dat_map_list=tuple([(k, hash_data_frame(data_map[k])) for k in data_map_keys]),\n",
   "        dat_map_list=tuple(zip(data_map_keys, sorted(hash_data_frame(d) for d in data_map.values()))),\n")
+v("c27-polars-over-only-for-method-terms", "C27", PM,
+  "            if op.windowed_situation and (\n                not (\n                    fld_k_container.is_literal\n",
+  "            if op.windowed_situation and (len(op.order_by) > 0) and (\n                not (\n                    fld_k_container.is_literal\n")
